@@ -20,10 +20,16 @@ Each directory holds `patch.diff` (applies to /repo HEAD), `demo.py` (exits 0 on
 non-zero with the change), `meta.json` (property, what the change needs in order to manifest, and what
 `tools/validate_seed.sh` confirmed in a fresh scratch worktree: patch applies, `tests/` still gives
 193 passed with the same 14 environment-caused failures, demo fails with / passes without the change).
-`C??-mut?-*` were written by independent sub-agents that saw only the property text; `revert-F*`
-revert one `fix:` commit each. Matrix produced by `tools/seed_matrix.py` (quick tier, seed 0, each
-change applied in its own scratch worktree, `VERIF_FINAM_SRC`); "not raised by" lists the related
-checks that were run and stayed silent (exit 0) or inconclusive (exit 2).
+`C??-mut?-*` (round 1) and `r2-*` ... `r7-*` were written by independent sub-agents that saw only the property text
+(from round 2 on also one-line summaries of the changes already tried); `revert-F*` revert one `fix:` commit each.
+Matrix produced by `tools/seed_matrix.py` (quick tier, seed 0, each change applied in its own scratch worktree,
+`VERIF_FINAM_SRC`); "not raised by" lists the related checks that were run and stayed silent (exit 0) or
+inconclusive (exit 2). The column of a change's own property was re-run with the final code for every change; the
+columns of neighbouring checks partly stem from the round in which the change was imported.
+`ref-*` (behaviour-preserving refactorings) and `ok-*` / `ok2-*` (behaviour changes that every property allows;
+confirmed by `tools/validate_ok.sh`) are false-alarm probes: all 20 checks were run against each of the 100 with
+the final code and must stay silent - see MATRIX.json (`caught_by` empty for all of them; `first_run_*` notes on
+`ok2-C09-2` record the one probe that exposed two monitor weaknesses, DESIGN 8.2).
 
 | seeded change | property | what was changed | needs | caught by | first violation kinds | ran, not raised by |
 |---|---|---|---|---|---|---|
